@@ -730,22 +730,41 @@ func init() {
 
 func c02UTC(c *Ctx) {
 	const rule = "C02.utc"
-	n := 0
+	n, sites := 0, 0
 	var bad []string
+	// an instant is made from wall-clock fields by time.Parse (UTC unless the text names a zone),
+	// time.ParseInLocation and time.Date; only these can make a write time depend on the zone.
+	// time.Local that is only used to display a time (In, Format) leaves instants alone.
 	for _, fn := range c.P.RepoFuncs(an.LibraryPkg) {
 		n++
-		for _, b := range fn.Blocks {
-			for _, in := range b.Instrs {
-				for _, op := range in.Operands(nil) {
-					if g, ok := (*op).(*ssa.Global); ok && g.Pkg != nil && g.Pkg.Pkg.Path() == "time" && g.Name() == "Local" {
-						bad = append(bad, core.FuncName(fn)+" at "+c.P.Pos(in.Pos()))
-					}
+		for _, call := range an.Calls(fn) {
+			f := call.Common().StaticCallee()
+			if f == nil || f.Pkg == nil || f.Pkg.Pkg.Path() != "time" {
+				continue
+			}
+			if f.Name() != "ParseInLocation" && f.Name() != "Date" && f.Name() != "Parse" {
+				continue
+			}
+			sites++
+			for _, a := range call.Common().Args {
+				if !strings.HasSuffix(a.Type().String(), "time.Location") {
+					continue
 				}
+				an.DependsOn(a, func(w ssa.Value) bool {
+					if g, ok := w.(*ssa.Global); ok && g.Pkg != nil && g.Pkg.Pkg.Path() == "time" && g.Name() == "Local" {
+						bad = append(bad, core.FuncName(fn)+" at "+c.P.Pos(call.Pos()))
+					}
+					return false
+				})
 			}
 		}
 	}
 	sort.Strings(bad)
 	c.R.Stats["C02.utc.functions"] = n
-	c.R.Cond(len(bad) == 0, rule, "library code: no use of time.Local", "-", fmt.Sprintf("%d functions, none reads the local zone", n),
-		"time.Local is used in "+strings.Join(bad, "; ")+": a write time that depends on the machine's zone orders statements differently on different machines")
+	c.R.Stats["C02.utc.sites"] = sites
+	if sites < 3 {
+		c.R.Errorf("only %d places where library code makes a time from text or fields (3 confirmed by hand: connection deadline, connection write_time, vacuum cutoff)", sites)
+	}
+	c.R.Cond(len(bad) == 0, rule, "library code: times are made from text in UTC", "-", fmt.Sprintf("%d functions, %d places where a time is made from text or wall-clock fields, none in the local zone", n, sites),
+		"time.Local is the zone of "+strings.Join(bad, "; ")+": a write time that depends on the machine's zone orders statements differently on different machines")
 }
